@@ -117,6 +117,12 @@ func VF_C13_Constructors(n, form int) {
 	vf.Class("more-values-than-default-capacity", n > int(cls.DefaultCapacity()))
 	vf.Assert("size<=capacity", s.GetSize() <= int(s.GetCapacity()))
 	vf.Assert("contents-top-to-bottom", eqInts(s.AsArray(), xs))
+	// the array view is a copy: writing into it does not change the stack
+	view := s.AsArray()
+	for i := range view {
+		view[i] = vf.Int("scribble")
+	}
+	vf.Assert("stack-unaffected-by-writes-into-its-array-view", eqInts(s.AsArray(), xs))
 	if n > 0 {
 		vf.Assert("top-is-first", s.RemoveTop() == xs[0])
 	}
